@@ -73,6 +73,11 @@ def check(ctx):
     sc_guard = select_coins(ctx, P)
     create_tx(ctx, P, sc_guard)
     twins(ctx)
+    aps_change_reuse(ctx, P)
+    # "unspent" is the wallet's own notion (IsSpent over live spenders): it depends on the mempool-conflict marks being cleared when a
+    # block connects - the obligation is C44's, imported here because a stale mark makes spent coins selectable again
+    from sa.rules.C44 import block_connected
+    block_connected(ctx, ctx.program(["wallet/wallet.cpp"]))
 
 
 # ================================================================================================ (1) AvailableCoins
@@ -559,3 +564,38 @@ def twins(ctx):
                                                     ("m_selected.find(%s) == m_selected.end()" % p, False), ("m_selected.end() == m_selected.find(%s)" % p, False)]})
     f = ctx.used(PC.fn("wallet::CCoinControl::HasSelected"))
     check_return_formula(ctx, f, PC, "!EMPTY", {"EMPTY": "m_selected.empty()"})
+
+
+# ------------------------------------------------------------------------------------------------
+def aps_change_reuse(ctx, P):
+    """CreateTransaction's avoid-partial-spends retry reuses the change destination of the first attempt: the destination it
+    writes into the retry's coin control must be extracted from the first attempt's OWN change output (`vout[*R.change_pos]` of
+    the same result R, under `R.change_pos`) - any other index can be a recipient's output, and the change would be paid to it."""
+    f = ctx.used(P.fn("wallet::CreateTransaction"))
+    sub = naming(f, P)
+    DC = "wallet::CCoinControl::destChange"
+    ws = sites(f, lambda e: any(is_expr(x) and x[0] == "." and len(x) == 3 and x[2] == DC and x[1][0] == "local" for x in subexprs(e)) and
+               (callee(e) is not None or (e[0] in ("b", "opcall") and e[1] in ASSIGN_OPS)) and
+               not any(callee(y) is not None and y is not e for y in subexprs(e) if any(is_expr(x) and x[0] == "." and len(x) == 3 and x[2] == DC for x in subexprs(y))), P)
+    ctx.floor("CreateTransaction writes of a coin control's destChange", len(ws), 1)
+    for s in ws:
+        okp, detail = False, {"expr": show(s.expr)[:200]}
+        if is_call_to("ExtractDestination", s.expr):
+            src = F.expand(call_args(s.expr)[0], sub)
+            m = [x for x in subexprs(src) if x[0] == "idx"]
+            if len(m) == 1 and match([".", ANY, "CTxOut::scriptPubKey"], src):
+                vec, ix = m[0][1], m[0][2]
+                while is_expr(ix) and ix[0] in ("paren", "cast") and len(ix) > 1:
+                    ix = ix[-1] if ix[0] == "paren" else ix[2]
+                res_v = [x for x in subexprs(vec) if x[0] == "local"]
+                res_i = [x for x in subexprs(ix) if x[0] == "local"]
+                pos = [x for x in subexprs(ix) if x[0] == "." and len(x) == 3 and x[2] == "wallet::CreatedTransactionResult::change_pos"]
+                guard_ok = False
+                if len(pos) == 1:
+                    fb, mp, un = F.bind_atoms(s.formula(sub), {"HASCHANGE": re.compile(r"\*?%s(\.has_value\(\))?" % re.escape(show(pos[0])))})
+                    guard_ok = "HASCHANGE" in mp.values() and F.implies(fb, F.parse("HASCHANGE"))
+                okp = len(res_v) == 1 and len(res_i) == 1 and res_v[0] == res_i[0] and len(pos) == 1 and match(["u", "*", ANY], ix) and guard_ok and \
+                    contains([".", ANY, "wallet::CreatedTransactionResult::tx"], vec)
+                detail.update({"output_of": show(vec), "index": show(ix), "guarded": guard_ok})
+        ctx.ob("CreateTransaction/reused-change-is-own-change@L%s" % s.line, "PROVENANCE", "the change destination reused for the avoid-partial-spends retry is extracted from the first attempt's "
+               "own change output (vout[*R.change_pos] of that same result, only if it has one)", okp, s.where, detail)
